@@ -35,16 +35,23 @@ var addrU = []felt.Felt{
 	*lib.F(0x104), *lib.F(0),
 	*lib.FHex("0x800000000000011000000000000000000000000000000000000000000000000"), // P-1, the largest felt
 	*lib.F(0xdead), // never emits
+	// round 5: more addresses that never emit (filters with many alternatives)
+	*lib.F(0xdeae), *lib.FHex("0x7ffffffffffffffffffffffffffffffffffffffffffffffffffffffffff0003"), *lib.F(3), *lib.F(0xdeaf),
 }
 
 // key universe; the last one is never used by an event. Key 3 is the felt 0 (edge value).
 var keyU = []felt.Felt{*lib.F(0x50), *lib.F(0x51),
-	*lib.FHex("0x800000000000011000000000000000000000000000000000000000000000000"), *lib.F(0), *lib.F(0xbeef)}
+	*lib.FHex("0x800000000000011000000000000000000000000000000000000000000000000"), *lib.F(0), *lib.F(0xbeef),
+	// round 5: more keys no event uses (filters with many alternatives)
+	*lib.F(0x52), *lib.F(0x4f), *lib.F(1), *lib.FHex("0x800000000000010ffffffffffffffffffffffffffffffffffffffffffffffff"),
+	*lib.F(0xbef0), *lib.F(0xbef1), *lib.F(0xbef2), *lib.F(0x5000)}
 
 const (
-	nEmitAddr = 7 // addrU[0..6] emit
-	nEmitKey  = 4 // keyU[0..3] are used by events
-	maxKeyPos = 5 // bloom abstraction covers key positions 0..4
+	nAddrCommon = 8 // addrU[0..7]: what ordinary filters draw from (7 = never emits)
+	nKeyCommon  = 5 // keyU[0..4]: what ordinary filters draw from (4 = never used)
+	nEmitAddr   = 7 // addrU[0..6] emit
+	nEmitKey    = 4 // keyU[0..3] are used by events
+	maxKeyPos   = 5 // bloom abstraction covers key positions 0..4
 )
 
 // Ev is one event: emitter and keys as universe indices.
